@@ -1505,3 +1505,14 @@ func provenance(t *term) [64]pbit {
 	}
 	return unknown()
 }
+
+// evalConstExpr folds an expression of fi to a constant through pure helpers of the module (index / shift helper
+// functions): no variables of fi are known, so only expressions over constants succeed.
+func (p *Program) evalConstExpr(fi *FuncInfo, e ast.Expr) (uint64, bool) {
+	se := newSymEval(p)
+	v := se.eval(fi, e)
+	if len(se.unsup) > 0 || v.kind != 'i' || !v.t.isConst() {
+		return 0, false
+	}
+	return v.t.k, true
+}
